@@ -8,8 +8,14 @@ from typing import Dict, Iterable, List, Optional, Tuple
 from .base import VC
 
 
-def bvc(func: str, kind: str, label: str, ok: bool, loc: str = "", note: str = "") -> VC:
-    return VC(func, kind, label, [], z3.BoolVal(bool(ok)), loc, 0, note=note[:600])
+OPEN = set()         # names of obligations whose failure means "shape not recognized" (undecided), not "refuted"
+
+
+def bvc(func: str, kind: str, label: str, ok: bool, loc: str = "", note: str = "", open_: bool = False) -> VC:
+    vc = VC(func, kind, label, [], z3.BoolVal(bool(ok)), loc, 0, note=note[:600])
+    if open_ and not ok:
+        OPEN.add(vc.name)
+    return vc
 
 
 def all_modules(tree, prefix: str = "rp2"):
@@ -61,3 +67,206 @@ def literal_set_returned(cls_node: ast.ClassDef, method: str):
                 except (ValueError, SyntaxError):
                     return None
     return None
+
+
+# ------------------------------------------------------------------------------------------------------------------ table-writer rule
+# A derived proof rule for the report writers, whose loops all have the shape
+#
+#     for e in S:                      # S: an entry set / list that is not modified in the body
+#         ...                          # pure locals
+#         self._fill_cell(sheet, row, <const column>, <value(e)>, ...)
+#         row += 1                     # (or counters[key] = row + 1)
+#
+# Contract: after the loop, for every k < |S| and every bound column c:  cell(sheet, row0 + k, c) == value_c(S[k]),  and row == row0 + |S|.
+# The invariant "row == row0 + k  and  rows row0 .. row0+k-1 carry the bindings" is inductive when (side conditions, checked on the AST):
+#   W1  the loop iterates exactly the stated collection;
+#   W2  no break / continue / return in the body, and no raise outside a type-check guard (every element gets its row);
+#   W3  the row variable is advanced exactly once per iteration, by one, unconditionally, after the last cell write;
+#   W4  every bound column is written by a _fill_cell(sheet, row, c, v) whose value v - after inlining single-assignment locals and
+#       dropping typing casts - is the stated expression of the loop element, under the stated guard (None = unconditionally);
+#   W5  no other write to a bound column of the row.
+# _fill_cell's own frame (writes cell (row, column) of the sheet only) is a separate obligation on its body.
+# The rule is syntactic, hence brittle by design against semantic rewrites (they become open obligations, i.e. undecided - never a violation
+# unless the binding is provably different: a different constant column or a different attribute path).
+
+
+class _Subst(ast.NodeTransformer):
+    def __init__(self, env):
+        self.env = env
+
+    def visit_Name(self, n):
+        if isinstance(n.ctx, ast.Load) and n.id in self.env:
+            v = self.env[n.id]
+            return ast.Name(id=v, ctx=ast.Load()) if isinstance(v, str) else ast.parse("(" + ast.unparse(v) + ")", mode="eval").body
+        return n
+
+    def visit_Call(self, n):
+        n = self.generic_visit(n)
+        if isinstance(n.func, ast.Name) and n.func.id == "cast" and len(n.args) == 2:
+            return n.args[1]
+        return n
+
+
+def _single_assignments(body_nodes, exclude):
+    """name -> rhs for names bound exactly once in the loop body by a plain (annotated) assignment and never read before that binding
+    (a name read earlier carries a value from the previous iteration: it is state, not an abbreviation)."""
+    counts: Dict[str, int] = {}
+    rhs: Dict[str, ast.AST] = {}
+    where: Dict[str, int] = {}
+    for st in body_nodes:
+        for n in ast.walk(st):
+            if isinstance(n, ast.Name) and isinstance(n.ctx, ast.Store):
+                counts[n.id] = counts.get(n.id, 0) + 1
+            if isinstance(n, ast.AnnAssign) and n.value is None and isinstance(n.target, ast.Name):
+                counts[n.target.id] = counts.get(n.target.id, 0) - 1        # bare annotation is not a binding
+            if isinstance(n, ast.Assign) and len(n.targets) == 1 and isinstance(n.targets[0], ast.Name):
+                rhs[n.targets[0].id], where[n.targets[0].id] = n.value, n.lineno
+            elif isinstance(n, ast.AnnAssign) and isinstance(n.target, ast.Name) and n.value is not None:
+                rhs[n.target.id], where[n.target.id] = n.value, n.lineno
+    out = {}
+    for k, v in rhs.items():
+        if counts.get(k) != 1 or k in exclude:
+            continue
+        early = False
+        for st in body_nodes:
+            for n in ast.walk(st):
+                if isinstance(n, ast.Name) and n.id == k and isinstance(n.ctx, ast.Load) and (n.lineno < where[k] or any(x is n for x in ast.walk(v))):
+                    early = True
+        if not early:
+            out[k] = v
+    return out
+
+
+def norm_expr(e: ast.AST, env: Dict[str, object]) -> str:
+    cur = ast.unparse(e)
+    for _ in range(8):
+        node = ast.parse(cur, mode="eval").body
+        new = _Subst(env).visit(node)
+        ast.fix_missing_locations(new)
+        nxt = ast.unparse(new)
+        if nxt == cur:
+            break
+        cur = nxt
+    return ast.unparse(ast.parse(cur, mode="eval").body)
+
+
+def loops_of(fnode) -> List[ast.For]:
+    return sorted([n for n in ast.walk(fnode) if isinstance(n, ast.For)], key=lambda n: (n.lineno, n.col_offset))
+
+
+class Writer:
+    """Facts about one writer loop, in normal form (ELT = loop element)."""
+
+    def __init__(self, fnode, loop: ast.For, row_expr: str = "row_index", fill="_fill_cell", outer_env: Optional[Dict[str, object]] = None):
+        self.loop = loop
+        self.row_src = row_expr
+        tgt = loop.target
+        env: Dict[str, object] = dict(outer_env or {})
+        if isinstance(tgt, ast.Name):
+            env[tgt.id] = "ELT"
+            self.targets = [tgt.id]
+        else:
+            self.targets = [x.id for x in tgt.elts if isinstance(x, ast.Name)]
+            for i, x in enumerate(self.targets):
+                env[x] = f"ELT{i}"
+        env.update(_single_assignments(loop.body, exclude=set(self.targets) | {row_expr}))
+        self.env = env
+        self.row_norm = norm_expr(ast.parse(row_expr, mode="eval").body, env)
+        self.iter = norm_expr(loop.iter, dict(outer_env or {}))
+        self.cells = []         # (col, value, guards, lineno, row)
+        self.skips = []
+        self.stores = []        # (target, value, guards, lineno)
+        self.advances = []      # (kind, guards, lineno)
+        self._walk(loop.body, ())
+
+    def n(self, e):
+        s = norm_expr(e, self.env)
+        return s
+
+    def _walk(self, stmts, guards):
+        for st in stmts:
+            if isinstance(st, ast.If):
+                t = self.n(st.test)
+                self._walk(st.body, guards + ((t, True),))
+                self._walk(st.orelse, guards + ((t, False),))
+                continue
+            if isinstance(st, (ast.For, ast.While)):
+                # nested loop: its writes are not per-element bindings; recorded as guarded by the loop
+                self._walk(st.body, guards + (("<nested loop>", True),))
+                continue
+            if isinstance(st, (ast.Break, ast.Continue, ast.Return)):
+                self.skips.append((type(st).__name__.lower(), guards, st.lineno))
+            if isinstance(st, ast.Raise):
+                self.skips.append(("raise", guards, st.lineno))
+            if isinstance(st, ast.Try):
+                self._walk(st.body, guards)
+                for h in st.handlers:
+                    self._walk(h.body, guards + (("<except>", True),))
+                continue
+            if isinstance(st, ast.AugAssign) and (ast.unparse(st.target) == self.row_src or self.n(st.target) == self.row_norm):
+                self.advances.append((ast.unparse(st.op.__class__()) if False else type(st.op).__name__ + ":" + ast.unparse(st.value), guards, st.lineno))
+            if isinstance(st, ast.Assign) and len(st.targets) == 1:
+                t = st.targets[0]
+                if not isinstance(t, ast.Name) and (ast.unparse(t) == self.row_src or self.n(t) == self.row_norm):
+                    self.advances.append(("store:" + self.n(st.value), guards, st.lineno))
+                elif isinstance(t, ast.Subscript):
+                    self.stores.append((self.n(t), self.n(st.value), guards, st.lineno))
+            for c in ast.walk(st):
+                if isinstance(c, ast.Call) and isinstance(c.func, ast.Attribute) and c.func.attr == "_fill_cell" and len(c.args) >= 4:
+                    col = c.args[2]
+                    colv = col.value if isinstance(col, ast.Constant) else self.n(col)
+                    self.cells.append((colv, self.n(c.args[3]), guards, c.lineno, self.n(c.args[1]), self.n(c.args[0])))
+
+
+def writer_vcs(qual: str, relpath: str, w: Optional[Writer], iter_expected: str, bindings: Dict, row_norm: Optional[str] = None, advance: Optional[str] = None,
+               allow_raise_guards: Tuple[str, ...] = ("isinstance",), tag: str = "") -> List[VC]:
+    """bindings: column -> expected value  |  column -> {guard or None: value}.  A guard is the normalized test text, prefixed with 'not ' for
+    the else branch; a value may be a tuple of accepted alternatives."""
+    out = []
+    t = (tag + "_") if tag else ""
+    if w is None:
+        return [bvc(qual, "writer", f"{t}loop_present", False, relpath, "writer loop not found (code restructured): obligation open", open_=True)]
+    row_norm = row_norm or w.row_norm
+    advance = advance or ("Add:1" if row_norm == w.row_src else f"store:{row_norm} + 1")
+    out.append(bvc(qual, "writer", f"{t}W1_iterates_{_lab(iter_expected)}", w.iter == iter_expected, f"{relpath}:{w.loop.lineno}", f"iterates {w.iter}"))
+    bad_skips = [s for s in w.skips if not (s[0] == "raise" and s[1] and any(g in s[1][-1][0] for g in allow_raise_guards))]
+    out.append(bvc(qual, "writer", f"{t}W2_every_element_gets_a_row_no_break_continue_return", not bad_skips, f"{relpath}:{w.loop.lineno}", str(bad_skips)[:300]))
+    adv_ok = len(w.advances) == 1 and w.advances[0][0] == advance and w.advances[0][1] == ()
+    last_cell = max([c[3] for c in w.cells if c[4] == row_norm] or [0])
+    if adv_ok and w.advances[0][2] < last_cell:
+        adv_ok = False
+    out.append(bvc(qual, "writer", f"{t}W3_row_advances_once_by_one_after_the_last_write", adv_ok, f"{relpath}:{w.loop.lineno}", str(w.advances)[:300]))
+    for col, exp in sorted(bindings.items(), key=lambda kv: str(kv[0])):
+        exp = exp if isinstance(exp, dict) else {None: exp}
+        writes = [c for c in w.cells if c[0] == col and c[4] == row_norm]
+        ok = True
+        notes = []
+        for guard, val in exp.items():
+            vals = val if isinstance(val, tuple) else (val,)
+            want = () if guard is None else _guard_tuple(guard)
+            hit = [c for c in writes if c[2] == want]
+            if not hit:
+                ok = False
+                notes.append(f"no write of column {col} under guard {guard}")
+            elif not all(c[1] in vals for c in hit):
+                ok = False
+                notes.append(f"column {col} under guard {guard} receives {[c[1] for c in hit]}, contract says {vals[0]}")
+        stray = [c for c in writes if c[2] not in [() if g is None else _guard_tuple(g) for g in exp]]
+        if stray:
+            ok = False
+            notes.append(f"further writes to column {col}: {[(c[1], c[2]) for c in stray]}")
+        out.append(bvc(qual, "writer", f"{t}W4_column_{col}_is_{_lab(str(list(exp.values())[0] if not isinstance(list(exp.values())[0], tuple) else list(exp.values())[0][0]))}", ok,
+                       f"{relpath}:{w.loop.lineno}", "; ".join(notes)[:500]))
+    return out
+
+
+def _guard_tuple(g):
+    if isinstance(g, tuple):
+        return tuple(_guard_tuple(x)[0] for x in g)
+    if g.startswith("not "):
+        return ((g[4:], False),)
+    return ((g, True),)
+
+
+def _lab(s: str) -> str:
+    return "".join(ch if ch.isalnum() else "_" for ch in s)[:60].strip("_")
